@@ -718,7 +718,7 @@ def process_scenario(task):
                             rec['env'] = env
                     else:
                         d = discharge(ob, axioms=ctx.axioms, timeout=timeout,
-                                      solvers=task.get('solvers', ('z3',)))
+                                      solvers=task.get('solvers', ('z3', 'z3new')))
                         rec.update(status=d['status'], time=round(d['time'], 3), solver=d['solver'], nq=d['nq'])
                         rec['size'] = sr.size([ob.goal])
                         if d['status'] == 'sat':
